@@ -68,11 +68,12 @@ func (s *synthDB) GetMetadata(a string) (*db.Metadata, error) {
 
 // per-entity abstract state for the synthetic layer
 type c11Ent struct {
-	Art     int `json:"art"`     // 0 absent, 1 cert+key, 2 cert+csr, 3 key only, 4 cert only
-	Hash    int `json:"hash"`    // 0 none, 1 equal, 2 different
-	Expired int `json:"expired"` // bit0 certificate expired; bits 1-2 configured end: 0 past and before the certificate's end, 1 future, 2 past but after the certificate's end, 3 far future
-	CfgNew  int `json:"cfgNew"`  // 0 config older than artifact, 1 newer
-	Time    int `json:"time"`    // artifact time rank
+	Art     int  `json:"art"`              // 0 absent, 1 cert+key, 2 cert+csr, 3 key only, 4 cert only
+	Hash    int  `json:"hash"`             // 0 none, 1 equal, 2 different
+	NotYet  bool `json:"notYet,omitempty"` // the stored certificate's period begins in the future (it is not expired)
+	Expired int  `json:"expired"`          // bit0 certificate expired; bits 1-2 configured end: 0 past and before the certificate's end, 1 future, 2 past but after the certificate's end, 3 far future
+	CfgNew  int  `json:"cfgNew"`           // 0 config older than artifact, 1 newer
+	Time    int  `json:"time"`             // artifact time rank
 }
 
 type c11Case struct {
@@ -164,9 +165,13 @@ func c11Build(ents []c11Ent, parent []int, perm int) *synthDB {
 		}
 		if e.Art == 1 || e.Art == 2 || e.Art == 4 {
 			c := &cert.Certificate{}
+			c.TBSCertificate.Validity.NotBefore = c11T0
 			c.TBSCertificate.Validity.NotAfter = c11CertValid
 			if e.Expired&1 != 0 {
+				c.TBSCertificate.Validity.NotBefore = c11Past
 				c.TBSCertificate.Validity.NotAfter = c11CertExpired
+			} else if e.NotYet {
+				c.TBSCertificate.Validity.NotBefore = time.Date(2090, 1, 1, 0, 0, 0, 0, time.UTC)
 			}
 			art.Certificate = c
 		}
@@ -380,6 +385,9 @@ func c11AllEnts(f func(e c11Ent)) {
 				}
 				for cn := 0; cn < 2; cn++ {
 					f(c11Ent{Art: art, Hash: hash, Expired: exp, CfgNew: cn})
+					if hasCert && exp&1 == 0 {
+						f(c11Ent{Art: art, Hash: hash, Expired: exp, CfgNew: cn, NotYet: true})
+					}
 				}
 			}
 		}
@@ -888,7 +896,7 @@ func init() {
 	register(&engine.Check{
 		ID:          "C11",
 		Level:       "model_checking",
-		Rule:        "(1) db.PlanBulkUpdate on a synthetic db.Database: for an issuer/subject pair the full product of per-entity states (artifact {absent, cert+key, cert+CSR, key only, cert only} x stored hash {none, equal, different} x (certificate expired or not) x (configured end before the certificate's end / after it but still past / future / far future) x config older/newer than artifact) for both entities x issuer-vs-subject artifact time {<,=,>} x all 32 strategies; for every rooted forest on <=3 (quick) / <=4 (thorough) entities a 6-letter per-entity alphabet x all strict artifact-time orders + all-equal x 32 strategies (x 6 return-order permutations of roots/subscribers for n<=3). (2) the same pair states realised as files (hash line, PEM blocks, mtimes) on FsDb+simfs for all 225 artifact/hash combinations x config age x time relation x 32 strategies, followed by BulkUpdate (issuer written first, subject verifies under the issuer written in this run, nothing unplanned written). (3) the CLI binary with all 32 explicit flag combinations on one world per reason, and all 243 spellings of the five flags (unmentioned = default, given, given as =false; short and long forms) on three worlds, which pins the documented defaults (-m and -c on). Oracle: the decision table transcribed from the statement with explicit don't-care cells. states = distinct abstract worlds, transitions = plans computed",
+		Rule:        "(1) db.PlanBulkUpdate on a synthetic db.Database: for an issuer/subject pair the full product of per-entity states (artifact {absent, cert+key, cert+CSR, key only, cert only} x stored hash {none, equal, different} x (certificate expired / valid / not yet valid) x (configured end before the certificate's end / after it but still past / future / far future) x config older/newer than artifact) for both entities x issuer-vs-subject artifact time {<,=,>} x all 32 strategies; for every rooted forest on <=3 (quick) / <=4 (thorough) entities a 6-letter per-entity alphabet x all strict artifact-time orders + all-equal x 32 strategies (x 6 return-order permutations of roots/subscribers for n<=3). (2) the same pair states realised as files (hash line, PEM blocks, mtimes) on FsDb+simfs for all 225 artifact/hash combinations x config age x time relation x 32 strategies, followed by BulkUpdate (issuer written first, subject verifies under the issuer written in this run, nothing unplanned written). (3) the CLI binary with all 32 explicit flag combinations on one world per reason, and all 243 spellings of the five flags (unmentioned = default, given, given as =false; short and long forms) on three worlds, which pins the documented defaults (-m and -c on). Oracle: the decision table transcribed from the statement with explicit don't-care cells. states = distinct abstract worlds, transitions = plans computed",
 		Bound:       map[string]string{"forest": "quick<=3 thorough<=4", "file layer": "2-entity chain"},
 		Assumptions: []string{"comparisons 'newer than its artifact' are not decided when the entity has no artifact file (don't-care)", "expiry is explored with certificates decades away from the wall clock"},
 		Budget:      budgets(quickBudget, thoroughBudget),
